@@ -4,6 +4,7 @@ package main
 // Lock state lives in per-path side tables keyed by the object's address.
 
 import (
+	"go/types"
 	"golang.org/x/tools/go/ssa"
 )
 
@@ -211,6 +212,69 @@ func (e *Engine) setupSyncIntrinsics() {
 		}
 		e.schedPoint() // the object may now be handed to another goroutine
 		return nil
+	}
+
+	// ---- sync.Map: an engine map from interface keys to interface values per
+	// *sync.Map (the Go 1.24 implementation is a lock-free trie built on
+	// internal/abi and atomics, which the engine does not interpret)
+	anyT := types.NewInterfaceType(nil, nil)
+	syncMapOf := func(e *Engine, p *Value) *Map {
+		if e.syncMaps == nil {
+			e.syncMaps = map[*Value]*Map{}
+		}
+		m := e.syncMaps[p]
+		if m == nil {
+			m = e.makeMap(types.NewMap(anyT, anyT))
+			e.syncMaps[p] = m
+		}
+		return m
+	}
+	in["(*sync.Map).Load"] = func(e *Engine, fr *frame, a []Value) Value {
+		e.schedPoint()
+		e.syncMapOp = true
+		defer func() { e.syncMapOp = false }()
+		v, ok := e.mapLookup(syncMapOf(e, a[0].(*Value)), a[1])
+		if !ok {
+			return Tuple{Iface{}, e.ts.fls}
+		}
+		return Tuple{v, e.ts.tru}
+	}
+	in["(*sync.Map).Store"] = func(e *Engine, fr *frame, a []Value) Value {
+		e.schedPoint()
+		e.syncMapOp = true
+		defer func() { e.syncMapOp = false }()
+		e.mapInsert(syncMapOf(e, a[0].(*Value)), a[1], a[2])
+		return nil
+	}
+	in["(*sync.Map).LoadOrStore"] = func(e *Engine, fr *frame, a []Value) Value {
+		e.schedPoint()
+		e.syncMapOp = true
+		defer func() { e.syncMapOp = false }()
+		m := syncMapOf(e, a[0].(*Value))
+		if v, ok := e.mapLookup(m, a[1]); ok {
+			return Tuple{v, e.ts.tru}
+		}
+		e.mapInsert(m, a[1], a[2])
+		return Tuple{a[2], e.ts.fls}
+	}
+	in["(*sync.Map).Delete"] = func(e *Engine, fr *frame, a []Value) Value {
+		e.schedPoint()
+		e.syncMapOp = true
+		defer func() { e.syncMapOp = false }()
+		e.mapDelete(syncMapOf(e, a[0].(*Value)), a[1])
+		return nil
+	}
+	in["(*sync.Map).LoadAndDelete"] = func(e *Engine, fr *frame, a []Value) Value {
+		e.schedPoint()
+		e.syncMapOp = true
+		defer func() { e.syncMapOp = false }()
+		m := syncMapOf(e, a[0].(*Value))
+		v, ok := e.mapLookup(m, a[1])
+		if !ok {
+			return Tuple{Iface{}, e.ts.fls}
+		}
+		e.mapDelete(m, a[1])
+		return Tuple{v, e.ts.tru}
 	}
 
 	// ---- sync/atomic ----
